@@ -92,6 +92,17 @@ def gen_case(rng: random.Random, nf=5, no=5, *, faults=0, with_ctx=False, gens=F
             elab[str(f)] = ["one", rit(), ph]
         else:
             elab[str(f)] = ["raise", None, ph]
+    # at most one next_inner per hook result: `(next_inner, next_inner)` on a frame whose next_inner is
+    # the same frame again (an iterator yielding it twice) re-inserts it forever -- the implementation
+    # has no fuel.  Extra occurrences become None (the random stream is left unchanged).
+    for spec in elab.values():
+        if spec[0] == "seq":
+            seen = False
+            for idx in reversed(range(len(spec[1]))):
+                if spec[1][idx] == ["N"]:
+                    if seen:
+                        spec[1][idx] = ["Z"]
+                    seen = True
     ctxs, fill = {}, {}
     if with_ctx:
         cid = 0
